@@ -618,11 +618,12 @@ package graphql
 //@   loop 6 invariant sortedflag(fieldNames)
 
 // isValidLiteralValue appends its messages in loop order: every emitting loop must iterate in a
-// defined order (loops: 1 list values, 2 messages, 3 provided fields, 4 defined fields, 5 messages).
+// defined order (loops: 1 list values, 2 messages, 3 provided fields, 4 collects the field names, 5 defined fields in sorted order, 6 messages).
 //@ func isValidLiteralValue
 //@   props C12
 //@   nosafety
 //@   opt invoke.ParseLiteral=pure
 //@   loop 1 ordered
 //@   loop 3 ordered
-//@   loop 4 ordered
+//@   loop 5 ordered
+//@   loop 5 invariant sortedflag(fieldNames)
